@@ -205,7 +205,7 @@ class Interval(Duration, Generic[_T]):
 
     @property
     def remaining_days(self) -> int:
-        return abs(self._delta.days) % 7 * self._sign(self._days)
+        return abs(self._delta.days) % 7 * self._sign(self._delta.days)
 
     @property
     def hours(self) -> int:
